@@ -33,12 +33,40 @@ Definition func_ok (F : family) (f : func) : bool :=
   | None => false
   end.
 
-Definition fam_wf (F : family) : bool :=
-  forallb (fun k => forallb default_ok (c_params k) && nodup_str (map p_name (c_params k))) (fam_classes F)
-  && forallb (fun f => forallb default_ok (f_params f) && nodup_str (map p_name (f_params f))
+(* package layout: names and submodule names are identifiers; only classes / functions live in submodules;
+   __init__ re-exports objects of submodules, under names it does not define itself *)
+Definition layout_wf (F : family) : bool :=
+  forallb (fun n => negb (has_dot n))
+          (map c_name (fam_classes F) ++ map f_name (fam_funcs F) ++ fam_consts F
+           ++ map snd (fam_subs F) ++ map fst (fam_exports F))
+  && forallb (fun kv => mem_str (fst kv) (map c_name (fam_classes F) ++ map f_name (fam_funcs F))) (fam_subs F)
+  && forallb (fun kv => ahas (snd kv) (fam_subs F)
+                        && (ahas (fst kv) (fam_subs F)
+                            || negb (mem_str (fst kv) (map c_name (fam_classes F) ++ map f_name (fam_funcs F)
+                                                       ++ fam_consts F)))
+                        && negb (mem_str (fst kv) (map snd (fam_subs F)))) (fam_exports F)
+  && nodup_str (map fst (fam_exports F)) && nodup_str (map fst (fam_subs F)).
+
+Definition fam_wf_with (dok : param -> bool) (F : family) : bool :=
+  forallb (fun k => forallb dok (c_params k) && nodup_str (map p_name (c_params k))) (fam_classes F)
+  && forallb (fun f => forallb dok (f_params f) && nodup_str (map p_name (f_params f))
                        && func_ok F f) (fam_funcs F)
   && nodup_str (map c_name (fam_classes F) ++ map f_name (fam_funcs F) ++ fam_consts F)
-  && negb (has_dot (fam_mod F)).
+  && negb (has_dot (fam_mod F))
+  && layout_wf F.
+
+(* the families the theorems speak about: no parameter default is a class spec *)
+Definition fam_wf (F : family) : bool := fam_wf_with default_ok F.
+
+(* the families the correspondence run generates: a class-typed parameter may also default to a class spec
+   (lazy_instance(Sub, ..)) *)
+Definition default_ok_ext (p : param) : bool :=
+  default_ok p ||
+  match p_ty p, p_def p with
+  | PCls _, Some (VSpec _ _ _) | POpt _, Some (VSpec _ _ _) => true
+  | _, _ => false
+  end.
+Definition fam_wf_ext (F : family) : bool := fam_wf_with default_ok_ext F.
 
 Fixpoint has_null (n : nat) (r : raw) : bool :=
   match n with
